@@ -266,5 +266,6 @@ int main(int argc, char **argv)
   c12::register_fault();
   c12::register_errtext();
   c12::register_bytes();
+  c12::register_long();
   return vrt::run(argc, argv);
 }
